@@ -20,6 +20,9 @@ CLAIMS = {
  "C11": dict(ref="7/C11",
    text="Proof (Coq): git's offset varint round-trips for every n; v4 path prefix compression round-trips against any previous path; one cache entry written in version 2, 3 or 4 reads back with every field (names of any length incl. the saturated 12-bit length field, all flag / extended-flag combinations, dev/ino/size modulo 2^32); a whole file (header, any number of entries, v4 chaining, version bump) reads back as the same entry list followed by the untouched remainder (extensions, trailer). Correspondence: helper level (varint, compression), entries on boundary stat values and names of length 0xFFE..0x1001, whole files through Index.write vs model bytes; git ls-files on dulwich-written indexes; git-written indexes (versions 2-4, conflict stages, skip-worktree) read by dulwich and by the model. Partial: sort order, SHA trailer check and extension round trip are checked on the implementation and against git each run, not proved; float times are not modelled.",
    note="Four theorems closed under the global context. git 2.39.5 ls-files / update-index are oracles."),
+ "C15": dict(ref="7/C15",
+   text="Proof (Coq) over Gallina twins of both implementations: parse_tree (Python order of checks vs Rust order, u32 overflow, digits-only modes) returns the same entries or fails in both for every byte string, id length and strict flag; key_entry's byte comparison and Rust's cmp_with_suffix order every pair of entries alike (names without NUL and '/'); apply_delta Rust = Python on every delta (C03's theorem, usize arithmetic and dev-profile panics modelled); bisect_find_sha twins agree and the Rust i64 arithmetic cannot overflow for indexes below 2^62. Differential check on the implementation with the extension rebuilt from the working tree: exhaustive short mode strings, truncations, both id lengths; dictionaries with prefix collisions; virtual id tables with indexes around 2^31; C03's delta sets; _merge_entries/_count_blocks/_is_tree on random trees and blobs (no model: compared twin against twin only). Partial: repository-level invariance is not stated as a theorem; names containing NUL or '/' and probes that are not 20/32 bytes are outside the stated domain.",
+   note="Four theorems closed under the global context."),
 }
 props = [json.loads(l) for l in open(os.path.join(V, "properties.jsonl"))]
 base = json.load(open("/root/.vp/BASELINE.json"))
